@@ -1,9 +1,15 @@
 ---------------------------- MODULE MC_Accounts ----------------------------
 (* MC leg of C18 (account half): the state enumerates pairs of account names of 1..MaxComps components over the
-   five root types and the sub-account alphabet Names; the laws of the statement are invariants.            *)
+   five root types and the sub-account alphabet Names; the laws of the statement are invariants.
+   The names of the five root types are ledger options: every name is also renamed into each type table of
+   TypeTables (translated names, a partial renaming, a renaming of the assets root only, the English names
+   PERMUTED) and the laws are checked there, together with possign as the code computes it (PosSignMech).   *)
 EXTENDS Accounts
 
-CONSTANTS Names, MaxComps, PairComps
+CONSTANTS Names, MaxComps, PairComps,
+          SignTypes      \* which type table possign consults: "connection" (the table of the ledger the query
+                         \* runs on -- the code) | "default" (the built-in English names whatever the ledger
+                         \* says -- the non-vacuity run: TLC must reject it)
 
 RECURSIVE Paths(_)
 Paths(k) == IF k = 0 THEN {<<>>} ELSE Paths(k - 1) \cup {Append(p, n) : p \in Paths(k - 1), n \in Names}
@@ -60,4 +66,60 @@ PosSignInv ==
     /\ (Root(a, 1) \in {"Assets", "Expenses"}) => PosSign(x, a) = x
     /\ PosSign(PosSign(x, a), a) = x
     /\ CreditNormal(a) <=> ~(TypeIndex(a) \in {1, 5})
+
+(* ---- type tables other than the default one ------------------------------------------------------------------ *)
+TypeTables == {RootNames,
+               <<"Actif", "Passif", "Capital", "Revenus", "Depenses">>,
+               <<"Assets", "Liabilities", "Equity", "Revenue", "Costs">>,
+               <<"Cash", "Liabilities", "Equity", "Income", "Expenses">>,
+               <<"Income", "Assets", "Expenses", "Liabilities", "Equity">>}
+\* the account of the same type and sub-path in the ledger whose type table is T
+Rename(T, x) == JoinAcc(<<T[TypeIndex(x)]>> \o Tail(Comps(x)))
+\* possign as the code computes it: the sign is kept for the names the consulted table gives to assets / expenses
+MechTable(T) == IF SignTypes = "connection" THEN T ELSE RootNames
+PosSignMech(T, x, acc) == IF Comps(acc)[1] \in {MechTable(T)[1], MechTable(T)[5]} THEN x ELSE <<-x[1], x[2]>>
+
+\* every table and amount for the names of <= 3 components; the translated and the permuted table for the deeper
+\* ones (the renaming touches the root only)
+DeepTables == {<<"Actif", "Passif", "Capital", "Revenus", "Depenses">>, <<"Income", "Assets", "Expenses", "Liabilities", "Equity">>}
+TablesFor(x) == IF NComps(x) <= 3 THEN TypeTables ELSE DeepTables
+AmountsFor(x) == IF NComps(x) <= 3 THEN Amounts ELSE {<<-5, 2>>, <<1, 4>>}
+
+TypesInv ==
+  (phase = 1) =>
+  \A T \in TablesFor(a) :
+    LET ar == Rename(T, a) IN
+    /\ TypeTableOK(T)
+    /\ KnownRootT(T, ar) /\ TypeIndexT(T, ar) = TypeIndex(a) /\ T[TypeIndexT(T, ar)] = Root(ar, 1)
+    /\ Tail(Comps(ar)) = Tail(Comps(a))
+    \* the type, hence the sign and the sort class, does not depend on what the ledger calls the type
+    /\ CreditNormalT(T, ar) <=> CreditNormal(a)
+    /\ SortKeyT(T, ar) = ToString(TypeIndex(a) - 1) \o "-" \o ar
+    /\ \A x \in AmountsFor(a) :
+         /\ PosSignT(T, x, ar) = PosSign(x, a)
+         /\ PosSignT(T, PosSignT(T, x, ar), ar) = x
+         /\ (TypeIndexT(T, ar) \in {1, 5}) => PosSignT(T, x, ar) = x
+         /\ (TypeIndexT(T, ar) \in {2, 3, 4}) => PosSignT(T, x, ar) = <<-x[1], x[2]>>
+    \* a name of the default table that the table T also knows has the type T gives it
+    /\ KnownRootT(T, a) => (CreditNormalT(T, a) <=> \E i \in {2, 3, 4} : T[i] = Root(a, 1))
+    /\ (T = RootNames) => (ar = a /\ SortKeyT(T, a) = SortKey(a)
+                           /\ \A x \in AmountsFor(a) : PosSignT(T, x, a) = PosSign(x, a))
+
+\* the mechanism (possign consults a type table) computes the specified sign in every ledger
+MechInv ==
+  (phase = 1) =>
+  \A T \in TablesFor(a) : \A x \in AmountsFor(a) :
+    /\ PosSignMech(T, x, Rename(T, a)) = PosSignT(T, x, Rename(T, a))
+    /\ KnownRootT(T, a) => PosSignMech(T, x, a) = PosSignT(T, x, a)
+
+PairTables == DeepTables
+\* (pairs of names of <= 2 components: the renaming touches the root only)
+TypesSortInv ==
+  (phase = 2 /\ NComps(a) <= 2 /\ NComps(b) <= 2) =>
+  \A T \in PairTables :
+    LET ar == Rename(T, a)
+        br == Rename(T, b) IN
+    /\ StrLess(SortKeyT(T, ar), SortKeyT(T, br)) <=> SortsBeforeT(T, ar, br)
+    /\ (TypeIndex(a) < TypeIndex(b)) => StrLess(SortKeyT(T, ar), SortKeyT(T, br))
+    /\ (SortKeyT(T, ar) = SortKeyT(T, br)) <=> (a = b)
 =============================================================================
